@@ -79,7 +79,7 @@ def gen_soil(rng, profile, zmax=2.3):
     if rng.random() < _p(profile, "custom_soil_p", 0.2):
         typ = "custom"
         nl = rng.choice([1, 1, 2, 2, 3])
-        dz = list(rng.choice([d for d in DZ_CHOICES if dz_reachable(d) >= zmax + 0.1]))
+        dz = list(rng.choice([d for d in DZ_CHOICES if profile.get('any_dz') or dz_reachable(d) >= zmax + 0.1]))
         total = round(sum(dz), 2)
         layers = []
         # thicknesses: split total into nl pieces on compartment boundaries
@@ -111,7 +111,7 @@ def gen_soil(rng, profile, zmax=2.3):
         pool = profile.get("soils") or SOILS
         typ = rng.choice(pool)
         if rng.random() < _p(profile, "dz_p", 0.3) and typ not in ("ac_TunisLocal",):
-            dz = list(rng.choice([d for d in DZ_CHOICES if dz_reachable(d) >= zmax + 0.1]))
+            dz = list(rng.choice([d for d in DZ_CHOICES if profile.get('any_dz') or dz_reachable(d) >= zmax + 0.1]))
             if typ == "Paddy" and round(sum(dz), 2) < 0.6:
                 dz = [0.1] * 12
             kwargs["dz"] = dz
